@@ -291,6 +291,9 @@ class DIP:
         # Parse nodes
         while len(queue.nodes):
             node = queue.nodes.pop()
+            # Clauses end at a line indented no deeper than their keyword
+            if node.keyword!=EmptyNode.keyword and node.keyword not in self.nodes_properties:
+                target.branching.close_ended(node.indent, clause=(node.keyword=='case'))
             # Perform specific node parsing only outside of case or inside of valid case
             if not target.branching.false_case() or node.keyword=='case':
                 node.inject_value(target)
@@ -365,6 +368,9 @@ class DIP:
         # Parse nodes
         while len(queue.nodes):
             node = queue.nodes.pop()
+            # Clauses end at a line indented no deeper than their keyword
+            if node.keyword!=EmptyNode.keyword and node.keyword not in self.nodes_properties:
+                target.branching.close_ended(node.indent, clause=(node.keyword=='case'))
             # Perform specific node parsing
             node.inject_value(target)
             parsed = node.parse(target)
